@@ -8,6 +8,7 @@ import (
 	"fmt"
 	"go/token"
 	"go/types"
+	"strings"
 
 	"golang.org/x/tools/go/ssa"
 )
@@ -88,6 +89,111 @@ func binIndexOf(v ssa.Value, depth int) ssa.Value {
 		}
 	}
 	return nil
+}
+
+// ruleBinFind (BIN-FIND): in Add, every element of the bin list that is written
+// through (chunk appended, End extended, count incremented) is addressed by the
+// index at which a scan of that same list found the bin number: the counter of a
+// range over the list, under the test "element's number == the record's bin".
+// A position remembered elsewhere (a map filled while adding) goes stale when
+// sort() reorders the list. Added after a blind second-round seed did exactly
+// that and nothing reported it.
+func ruleBinFind(c *Ctx, r *Rep, tier string) {
+	rule := "BIN-FIND"
+	for _, pkg := range []string{"internal", "csi"} {
+		fn := c.Func(pkg, "(*Index).Add")
+		n := 0
+		seen := map[string]bool{}
+		allInstrs(fn, func(ins ssa.Instruction) {
+			ia, ok := ins.(*ssa.IndexAddr)
+			if !ok {
+				return
+			}
+			lk := symKey(ia.X)
+			if !strings.HasSuffix(lk, ".bins") && !strings.HasSuffix(lk, ".Bins") {
+				return
+			}
+			// written through?
+			written := false
+			var walk func(v ssa.Value, d int)
+			walk = func(v ssa.Value, d int) {
+				if d > 4 || v.Referrers() == nil {
+					return
+				}
+				for _, u := range *v.Referrers() {
+					switch x := u.(type) {
+					case *ssa.Store:
+						if x.Addr == v {
+							written = true
+						}
+					case *ssa.FieldAddr:
+						walk(x, d+1)
+					case *ssa.IndexAddr:
+						if x.X == v {
+							walk(x, d+1)
+						}
+					case *ssa.UnOp:
+						// a loaded slice header (…chunks) indexed and stored through
+						walk(x, d+1)
+					}
+				}
+			}
+			walk(ia, 0)
+			if !written {
+				return
+			}
+			key := fmt.Sprintf("%s.(*Index).Add#%s[%s]", pkg, lk, symKey(ia.Index))
+			if seen[key] {
+				return
+			}
+			seen[key] = true
+			n++
+			r.Instance(rule, 1)
+			why := ""
+			inc, isInc := ia.Index.(*ssa.BinOp)
+			var phi *ssa.Phi
+			if isInc && inc.Op == token.ADD {
+				phi, _ = inc.X.(*ssa.Phi)
+			}
+			if phi == nil || phi.Comment != "rangeindex" {
+				why = fmt.Sprintf("the bin that is updated is addressed by %s, not by the position at which a scan of %s found the record's bin number: a remembered position is stale once sort() has reordered the list, and the chunk is filed under another bin", symKey(ia.Index), lk)
+			} else {
+				// the loop ranges over the same list, and the update sits under "number == b"
+				okLoop, okEq := false, false
+				if iff := ifOf(phi.Block()); iff != nil {
+					if cmp, ok := iff.Cond.(*ssa.BinOp); ok && cmp.Op == token.LSS && symKey(cmp.Y) == "len("+lk+")" {
+						okLoop = true
+					}
+				}
+				for _, b := range fn.Blocks {
+					iff := ifOf(b)
+					if iff == nil {
+						continue
+					}
+					bo, ok := iff.Cond.(*ssa.BinOp)
+					if !ok || bo.Op != token.EQL {
+						continue
+					}
+					// the element's number: selected from the list element or from the
+					// range variable that copies it (inside this loop)
+					kx, ky := strings.ToLower(symKey(bo.X)), strings.ToLower(symKey(bo.Y))
+					if (strings.HasSuffix(kx, ".bin") || strings.HasSuffix(ky, ".bin")) && phi.Block().Dominates(b) && dominatedByEdge(fn, b, 0, ia.Block()) {
+						okEq = true
+					}
+				}
+				if !okLoop {
+					why = "the index is the counter of a loop over another list than " + lk
+				} else if !okEq {
+					why = "the update is not under the test 'this element's number is the record's bin'"
+				}
+			}
+			r.Check(why == "", rule, key, c.Pos(ia.Pos()), "addressed by the scan position under number == bin", why)
+		})
+		if n == 0 {
+			r.Instance(rule, 1)
+			r.Fail(rule, pkg+".(*Index).Add#bin-updates", c.Pos(fn.Pos()), "no update of an existing bin found in Add")
+		}
+	}
 }
 
 func rulePruneRole(c *Ctx, r *Rep, tier string) {
